@@ -1,5 +1,6 @@
 import PlumVerif.Spec.C10
 import PlumVerif.Proofs.Entry
+import PlumVerif.Proofs.EntryRank
 /-
 C10 — one device object per controller address, for every arrival timing.
 Property theorems only; the machine is Model/Entry.lean, the invariant Proofs/Entry.lean.
@@ -88,7 +89,14 @@ theorem addresses_do_not_interfere (who : Nat → Caller) (cr : Nat → Bool) (s
   subst hde
   exact ha ((h2 _ d (h5 k d hk)).2.2.2 _ (h5 j d hj))
 
-/-- **single_device_across_reconnects**: the connection may be lost and re-established at ANY
+/-- **single_device_across_reconnects** — READ THIS AS A MODELLING STATEMENT, not as a theorem about
+reconnects: in the code a reconnect touches none of the things the entry machine depends on (lock
+object, device map, callers in flight), so the machine's `.reconnect` event with the code's effect is
+the identity and the theorem only records that a timeline with reconnects is the run of the same
+timeline without them.  THAT the code's reconnect has this (empty) effect is established by the
+correspondence (a reconnect at every position of the timeline on a real AsyncProtocol, both via a
+plain callback and via `Connection._reconnect`), not here; `reconnect_effects_matter` below shows
+that each field of the effect matters.  Original wording: the connection may be lost and re-established at ANY
 point of the timeline — between frames, while a class loading is in flight, while consumers
 wait for the lock, between creation and publication: the lock, the device map and the in-flight
 loads survive it, so every conclusion of `per_address_single_device` holds for every timeline of
@@ -128,6 +136,25 @@ example :
     let s := runMv true false (fun _ => ⟨.entry, 69⟩) (fun _ => true) init
       [.move 0, .reconnect, .move 1, .move 0, .move 0, .move 1, .move 1]
     s.createdFor 69 = 1 ∧ s.pc 0 = .done 0 ∧ s.pc 1 = .done 0 ∧ s.dispatched = [(69, 0)] := by decide
+
+/-- the code's reconnect effect is the identity on the machine's state (by definition of the effect
+record; that the CODE has this effect is the correspondence's business) -/
+theorem code_reconnect_effect (s : St) : reconEffect ⟨false, false⟩ s = s := rfl
+
+/-- **reconnect_effects_matter**: the single-device property depends on BOTH things a reconnect
+leaves alone.  A fresh lock per connection, or a device map emptied on loss, each admit a timeline
+with two objects and two set-ups for one address — so the clause "across reconnects" has content
+exactly in what the correspondence checks (that neither happens). -/
+theorem reconnect_effects_matter :
+    (let s := runMvWith ⟨true, false⟩ (fun _ => ⟨.entry, 69⟩) (fun _ => true) init
+        [.move 0, .reconnect, .move 1, .move 0, .move 0, .move 1, .move 1]
+     s.createdFor 69 = 2 ∧ s.setupsFor 69 = 2) ∧
+    (let s := runMvWith ⟨false, true⟩ (fun _ => ⟨.entry, 69⟩) (fun _ => true) init
+        [.move 0, .move 0, .move 0, .reconnect, .move 1, .move 1, .move 1]
+     s.createdFor 69 = 2 ∧ s.setupsFor 69 = 2 ∧ s.pc 0 = .done 0 ∧ s.pc 1 = .done 1) ∧
+    (let s := runMvWith ⟨false, false⟩ (fun _ => ⟨.entry, 69⟩) (fun _ => true) init
+        [.move 0, .move 0, .move 0, .reconnect, .move 1, .move 1, .move 1]
+     s.createdFor 69 = 1 ∧ s.pc 0 = .done 0 ∧ s.pc 1 = .done 0) := by decide
 
 /-- an entry, once there, is never replaced: "at every time" -/
 theorem entry_is_stable (who : Nat → Caller) (cr : Nat → Bool) (sched more : List Nat) (a d : Nat)
@@ -177,6 +204,80 @@ theorem always_handleable (who : Nat → Caller) (cr : Nat → Bool) (sched : Li
   · exact .inl ⟨d, hd, hinv.holds j d (.inl hd), hinv.doneIn j d hd⟩
   · exact .inr ⟨hf, hinv.failedOk j hf⟩
 
+/-! ### inevitability
+
+`always_handleable` is a possibility statement (some continuation of ≤ 5 moves handles the frame).
+Inevitability form, for the callers 0 … N-1 (any N): `total` = sum of the moves each of them can
+still make (≤ 3N).  (1) no move raises it, every REAL move (one that changes the state) of one of
+them lowers it; (2) while some frame caller is neither done nor failed, somebody can really move (the
+caller itself, or the holder of the lock) — no deadlock; hence (3) every schedule contains at most 3N
+real moves of these callers, and in a state where none of them can move — reached by EVERY fair
+schedule, since moves that are not real change nothing — every frame caller among them has been
+handled by the entry of its address (or dropped: address without a device class). -/
+
+/-- the real (state changing) moves of a schedule, counted along the run -/
+def realMoves (who : Nat → Caller) (cr : Nat → Bool) : St → List Nat → Nat
+  | _, [] => 0
+  | s, i :: is => (if moves who cr s i then 1 else 0) + realMoves who cr (step true who cr s i) is
+
+/-- a move that is not real changes nothing at all -/
+theorem unreal_move_is_stutter (who : Nat → Caller) (cr : Nat → Bool) (s : St) (i : Nat)
+    (h : moves who cr s i = false) : step true who cr s i = s := by
+  by_cases he : step true who cr s i = s
+  · exact he
+  · have := (moves_iff who cr s i).mpr he; rw [h] at this; cases this
+
+/-- **(1)+(3a) at most 3N real moves**: along EVERY schedule of the callers 0 … N-1, from every state,
+the number of real moves plus the remaining total rank never exceeds the initial total rank ≤ 3N -/
+theorem real_moves_bounded (who : Nat → Caller) (cr : Nat → Bool) (N : Nat) (s : St) (is : List Nat)
+    (hN : ∀ i ∈ is, i < N) :
+    realMoves who cr s is + total who (run true who cr s is) N ≤ total who s N ∧ total who s N ≤ 3 * N := by
+  refine ⟨?_, total_le who s N⟩
+  induction is generalizing s with
+  | nil => simp [realMoves, run]
+  | cons i is ih =>
+    have hi : i < N := hN i (by simp)
+    have ih' := ih (step true who cr s i) (fun k hk => hN k (by simp [hk]))
+    have ts := total_step who cr s i N
+    simp only [realMoves, run]
+    cases hm : moves who cr s i with
+    | false => simp only [Bool.false_eq_true, ↓reduceIte]; omega
+    | true =>
+      have := ts.2 hi ((moves_iff who cr s i).mp hm)
+      simp only [↓reduceIte]; omega
+
+/-- **(2)+(3b) when nobody can move, every frame is handled**: after ANY schedule of the callers
+0 … N-1, if none of them can make a real move any more (which every fair schedule reaches after at
+most 3N real moves, by `real_moves_bounded`), then every frame caller among them has been handled
+by the published entry of its address — or dropped because its address has no device class.  There
+is no state in which a frame waits and nobody can move. -/
+theorem handled_when_nothing_moves (who : Nat → Caller) (cr : Nat → Bool) (N : Nat) (sched : List Nat)
+    (hs : ∀ i ∈ sched, i < N)
+    (hstuck : ∀ k, k < N → moves who cr (run true who cr init sched) k = false)
+    (j : Nat) (hj : j < N) (hk : (who j).kind = .entry) :
+    (∃ d, (run true who cr init sched).pc j = .done d ∧
+          (run true who cr init sched).published (who j).addr = some d ∧
+          (j, d) ∈ (run true who cr init sched).handled) ∨
+    ((run true who cr init sched).pc j = .failed ∧ cr (who j).addr = false) := by
+  have hinv := inv_run who cr init sched (inv_init who cr)
+  by_cases hd : ∃ d, (run true who cr init sched).pc j = .done d
+  · obtain ⟨d, hd⟩ := hd
+    exact .inl ⟨d, hd, hinv.holds j d (.inl hd), hinv.doneIn j d hd⟩
+  · by_cases hf : (run true who cr init sched).pc j = .failed
+    · exact .inr ⟨hf, hinv.failedOk j hf⟩
+    · exfalso
+      rcases unfinished_someone_moves who cr _ hinv j hk (fun d h => hd ⟨d, h⟩) hf with h | ⟨k, hl, h⟩
+      · rw [hstuck j hj] at h; cases h
+      · have hkN : k < N := lock_holder_scheduled who cr (· < N) init sched (by simp [init]) hs k hl
+        rw [hstuck k hkN] at h; cases h
+
+/-- non-vacuity: three frames from one address, nobody scheduled yet: total rank 9; after a fair
+schedule nobody can move and all three are done with the same object -/
+example : let who : Nat → Caller := fun _ => ⟨.entry, 69⟩
+    let s := run true who (fun _ => true) init [0, 1, 2, 0, 1, 0, 2, 1, 2]
+    total who init 3 = 9 ∧ (List.range 3).all (fun k => !moves who (fun _ => true) s k) = true ∧
+    s.pc 0 = .done 0 ∧ s.pc 1 = .done 0 ∧ s.pc 2 = .done 0 := by decide
+
 /-- every state the driver's replay of a harness schedule passes through is a state of the
 interleaving machine under the schedule it recorded — so the theorems above apply to
 everything the correspondence compares with — and it is quiescent. -/
@@ -206,6 +307,59 @@ theorem final_ok (cr : Nat → Bool) (evs : List Ev) (r : Replay)
     finalOk (frameAddrs evs) (getAddrs evs) cr (observe r) = true := by
   obtain ⟨a, b, c, d⟩ := runEvs_spec _ cr evs replay0 r (rinv_replay0 _ cr) (quiet_replay0 _ cr) h
   exact quiet_finalOk _ _ cr r a b (by simpa [replay0] using c) (by simpa [replay0] using d) hheld
+
+/-- **replay_snapshots_ok** (bridge to the driver): the function the DRIVER runs for the op `c10` is
+`Entry.replay true cr evs` — a list of optional snapshots, one per event, `none` marking the first
+event the machine does not accept.  Every snapshot it emits satisfies the statement's per-instant
+predicate, and as long as the events are accepted it emits exactly the observations of `runEvs` on
+the prefixes (`replay_is_runEvs`), so `holds` / `final_ok` / `replay_is_run` — stated about `runEvs` —
+are statements about what the driver prints. -/
+theorem replayFrom_ok (fa ga : List Nat) (cr : Nat → Bool) (evs : List Ev) (r : Replay)
+    (h : RInv (whoPar fa ga) cr r) (hq : quiet true (whoPar fa ga) cr r = true) :
+    ∀ snap, some snap ∈ replayFrom true (whoPar fa ga) cr r evs → snapOk fa ga snap = true := by
+  induction evs generalizing r with
+  | nil => intro snap hm; simp [replayFrom] at hm
+  | cons e es ih =>
+    intro snap hm
+    simp only [replayFrom] at hm
+    cases he : applyEv true (whoPar fa ga) cr r e with
+    | none => rw [he] at hm; simp at hm
+    | some r' =>
+      rw [he] at hm
+      obtain ⟨a, b, _, _⟩ := applyEv_spec (whoPar fa ga) cr r r' e h he
+      simp only [List.mem_cons, Option.some.injEq] at hm
+      rcases hm with rfl | hm
+      · exact quiet_snapOk fa ga cr r' a b
+      · exact ih r' a b snap hm
+
+theorem replay_snapshots_ok (cr : Nat → Bool) (evs : List Ev) :
+    ∀ snap, some snap ∈ replay true cr evs → snapOk (frameAddrs evs) (getAddrs evs) snap = true :=
+  replayFrom_ok _ _ cr evs replay0 (rinv_replay0 _ cr) (quiet_replay0 _ cr)
+
+/-- the driver's list, while events are accepted, is the list of `runEvs` observations of the prefixes:
+if `runEvs` accepts `evs` ending in `r`, the driver's replay of `evs` ends with `some (observe r)` and
+contains no `none` -/
+theorem replay_is_runEvs (who : Nat → Caller) (cr : Nat → Bool) (evs : List Ev) (r0 r : Replay)
+    (h : runEvs who cr r0 evs = some r) :
+    none ∉ replayFrom true who cr r0 evs ∧ (evs ≠ [] → (replayFrom true who cr r0 evs).getLast? = some (some (observe r))) := by
+  induction evs generalizing r0 with
+  | nil => simp [replayFrom]
+  | cons e es ih =>
+    simp only [runEvs] at h
+    cases he : applyEv true who cr r0 e with
+    | none => rw [he] at h; cases h
+    | some r' =>
+      rw [he] at h
+      obtain ⟨i1, i2⟩ := ih r' h
+      simp only [replayFrom, he]
+      refine ⟨by simp [i1], fun _ => ?_⟩
+      cases es with
+      | nil => simp only [runEvs, Option.some.injEq] at h; subst h; simp [replayFrom]
+      | cons e2 es2 =>
+        have := i2 (by simp)
+        cases hr : replayFrom true who cr r' (e2 :: es2) with
+        | nil => rw [hr] at this; simp at this
+        | cons x xs => rw [hr] at this; rw [List.getLast?_cons_cons]; exact this
 
 /-- the model can tell the difference: the SAME machine without the lock (`step false`, the
 code before fix 9a3d4ee) admits a schedule with two creations for one address, two set-ups,
